@@ -28,7 +28,7 @@ RULE = ('kernels (free subroutines, a slice inside modules) with assumed-shape a
         'Non-trivial = the check run reported a fixable violation, the fix changed the file and all three lint runs '
         'finished; distinct = hash of the generated sources.')
 CASES = {'quick': 96, 'thorough': 1600}
-MIN_NONTRIVIAL = {'quick': 50, 'thorough': 800}
+MIN_NONTRIVIAL = {'quick': 40, 'thorough': 800}
 ANCHORS = []
 REQUIRED_COUNTERS = {'files_fixed': 20, 'statements_compared': 500, 'program_runs': 40}
 ASSUMPTIONS = ['actual arguments have exactly the extents tested by the removed UBOUND checks',
@@ -406,6 +406,10 @@ class KernelGen:
                 L.append(f'{ind}where ({arrs[0]["name"]} > 5.) {arrs[0]["name"]} = 5.')
                 self.features.add('inline_where')
             self.features.add('inline_if')
+        if f.get('string_trap'):
+            # a new-style comparison and an old-style look-alike inside a character literal in one statement
+            L.append(f"{ind}msg = merge('a .lt. b', 'a .ge. b', res < 1.)")
+            self.features.add('old_style_lookalike_in_string_next_to_comparison')
         if f.get('other_blocks'):
             L += [f'{ind}i = 0', f'{ind}do while (i < klon)', f'{ind}  i = i + 1', f'{ind}end do',
                   f'{ind}select case (i)', f'{ind}case (1)', f'{ind}  res = res + 1.', f'{ind}case default',
@@ -456,7 +460,9 @@ ABOR1 = ("subroutine abor1(msg)\n  character(len=*), intent(in) :: msg\n  print 
 def case_flags(rng, idx):
     s = idx % 16
     f = {}
-    if s == 9:
+    if s == 8:
+        f['string_trap'] = True
+    elif s == 9:
         f['inline_conditional'] = True
     elif s == 10:
         f['multiline_header'] = True
@@ -592,6 +598,11 @@ def _run_case(idx, rng, tier, wd):
         return res
     nv = n_fixable(rep_check)
     cnt['fixable_violations_reported'] += sum(nv.values())
+    n_old = len(re.findall(r'\.(gt|lt|ge|le|eq|ne)\.', _strip_strings_comments(orig), re.I))
+    if nv['Fortran90OperatorsRule'] and not n_old:
+        add('check:false-positive:old-style-operator-inside-character-literal',
+            f"Fortran90OperatorsRule reports {rep_check.get('Fortran90OperatorsRule')} although the file has no "
+            'old-style operator outside character literals and comments')
     if not sum(nv.values()):
         res['inconclusive'] = 'generator defect: no fixable violation reported'
         return res
